@@ -3,6 +3,9 @@
 package hashringutil
 
 import (
+	"fmt"
+	"go/ast"
+	"go/token"
 	"sort"
 	"strconv"
 
@@ -49,4 +52,50 @@ func (r *Ranker) Rank(v uint64) uint64 {
 		panic("hashringutil: value was not added to the ranker")
 	}
 	return k
+}
+
+// SearchPredicate locates the function literal passed to sort.Search inside fn
+// (a single `return <lhs> <op> <rhs>` body), checks that lhs/rhs are spelled as
+// expected and returns the Coq boolean comparison operator for <op>. It is a
+// deliberately tiny translator: anything else is an error, never a guess.
+func SearchPredicate(fd *ast.FuncDecl, render func(ast.Expr) string, wantLHS, wantRHS string) (string, error) {
+	var pred *ast.BinaryExpr
+	ast.Inspect(fd.Body, func(n ast.Node) bool {
+		call, ok := n.(*ast.CallExpr)
+		if !ok || pred != nil {
+			return true
+		}
+		sel, ok := call.Fun.(*ast.SelectorExpr)
+		if !ok || sel.Sel.Name != "Search" || len(call.Args) != 2 {
+			return true
+		}
+		fl, ok := call.Args[1].(*ast.FuncLit)
+		if !ok || len(fl.Body.List) != 1 {
+			return true
+		}
+		rs, ok := fl.Body.List[0].(*ast.ReturnStmt)
+		if !ok || len(rs.Results) != 1 {
+			return true
+		}
+		if be, ok := rs.Results[0].(*ast.BinaryExpr); ok && render(be.X) == wantLHS && render(be.Y) == wantRHS {
+			pred = be
+		}
+		return true
+	})
+	if pred == nil {
+		return "", fmt.Errorf("srcfacts: no sort.Search(_, func(..) bool { return %s <op> %s }) in %s", wantLHS, wantRHS, fd.Name.Name)
+	}
+	switch pred.Op {
+	case token.GEQ:
+		return ">=?", nil
+	case token.GTR:
+		return ">?", nil
+	case token.LEQ:
+		return "<=?", nil
+	case token.LSS:
+		return "<?", nil
+	case token.EQL:
+		return "=?", nil
+	}
+	return "", fmt.Errorf("srcfacts: comparison %s not supported", pred.Op)
 }
